@@ -8,9 +8,9 @@ CONSTANTS
   MaxNodes = 3
   MaxStack = 3
   BugOptionalDropsNone = FALSE
-  FixedStar = FALSE
-  FixedFinalInString = FALSE
-  FixedNestedLiteral = FALSE
+  FixedStar = TRUE
+  FixedFinalInString = TRUE
+  FixedNestedLiteral = TRUE
 INVARIANT AnnotationRoutesAgree
 INVARIANT NoRouteRaises
 INVARIANT EmitDone
